@@ -120,6 +120,14 @@ func (p *FilterPool) DrawFilter(t *rapid.T, label string) *mocrelay.ReqFilter {
 	if pres("authors", 3) {
 		f.Authors = drawSubset(t, label+"authors", p.Authors, func(i int) string { return FakeID(200 + i) })
 	}
+	// near twins: a listed id or author next to a value that agrees with it on a prefix or
+	// suffix (proof-of-work ids, vanity keys); only whole values select
+	if len(f.IDs) > 0 && rapid.IntRange(0, 3).Draw(t, label+"idtwin?") == 0 {
+		f.IDs = withNearTwin(t, label+"idtwin", f.IDs)
+	}
+	if len(f.Authors) > 0 && rapid.IntRange(0, 3).Draw(t, label+"authortwin?") == 0 {
+		f.Authors = withNearTwin(t, label+"authortwin", f.Authors)
+	}
 	if pres("kinds", 4) {
 		f.Kinds = drawSubset(t, label+"kinds", p.Kinds, func(i int) int64 { return []int64{2, 6, 30001}[i] })
 	}
@@ -189,6 +197,10 @@ func eqFold1(a, b string) bool {
 func (p *FilterPool) drawTs(t *rapid.T, label string) int64 {
 	if len(p.Ts) == 0 {
 		return rapid.Int64Range(0, 10).Draw(t, label)
+	}
+	// far bounds: clients send "until: far future" and "since: 0"; any int64 >= 0 is a timestamp
+	if rapid.IntRange(0, 4).Draw(t, label+"far") == 0 {
+		return rapid.SampledFrom([]int64{0, 1, 1<<31 - 2, 1<<31 - 1, 1 << 31, 1<<32 - 1, 1 << 32, 1<<53 + 1, 1 << 62, 1<<63 - 1}).Draw(t, label+"farv")
 	}
 	base := rapid.SampledFrom(p.Ts).Draw(t, label+"base")
 	return base + rapid.Int64Range(-1, 1).Draw(t, label+"d")
@@ -269,4 +281,45 @@ func shortAll(ss []string) []string {
 		out[i] = ShortRef(s)
 	}
 	return out
+}
+
+// withNearTwin inserts, before or after one element of list, a value of the same length that
+// shares its first (or last) k characters and differs everywhere else.
+func withNearTwin(t *rapid.T, label string, list []string) []string {
+	i := rapid.IntRange(0, len(list)-1).Draw(t, label+"i")
+	v := list[i]
+	if len(v) < 2 {
+		return list
+	}
+	k := rapid.SampledFrom([]int{1, 4, 8, 16, 32, 63}).Draw(t, label+"k")
+	if k >= len(v) {
+		k = len(v) - 1
+	}
+	suffix := rapid.Bool().Draw(t, label+"suffix")
+	b := []byte(v)
+	for j := range b {
+		keep := j < k
+		if suffix {
+			keep = j >= len(b)-k
+		}
+		if !keep {
+			switch c := b[j]; {
+			case c >= '0' && c < '9', c >= 'a' && c < 'f':
+				b[j] = c + 1
+			case c == '9':
+				b[j] = 'a'
+			default:
+				b[j] = '0'
+			}
+		}
+	}
+	twin := string(b)
+	out := make([]string, 0, len(list)+1)
+	out = append(out, list[:i]...)
+	if rapid.Bool().Draw(t, label+"after") {
+		out = append(out, v, twin)
+	} else {
+		out = append(out, twin, v)
+	}
+	return append(out, list[i+1:]...)
 }
